@@ -9,7 +9,7 @@ from concurrent.futures import ThreadPoolExecutor
 HERE = os.path.dirname(os.path.abspath(__file__))
 spec = importlib.util.spec_from_file_location("sweep_gen", os.path.join(HERE, "sweep.py"))
 src = open(os.path.join(HERE, "sweep.py")).read().replace("\nmain()\n", "\n")
-mod = type(sys)("sweep_gen")
+mod = type(sys)("sweep_gen"); mod.__file__ = os.path.join(HERE, "sweep.py")
 exec(compile(src, "sweep.py", "exec"), mod.__dict__)
 REPO = "/repo"
 
